@@ -14,7 +14,7 @@ for f in sorted(glob.glob('/verif/seeded/*/m*/caught-by-*.replay')):
     if not mk or not me:
         continue
     key, eng = mk.group(1), me.group(1)
-    if eng == "pure":
+    if eng not in ("chain", "ante"):
         continue  # a pure transcript embeds answers of the tree it was made on (the entry the feeder produced is fed back): not a history
     ops = [l for l in lines[1:] if l.strip() and not l.startswith('#')]
     if not ops:
